@@ -471,7 +471,7 @@ func runFrames(c *Case, r *mon.Rec) {
 
 func runErrCube(c *Case, r *mon.Rec) {
 	n := 0
-	for fc := 0; fc < 128; fc++ {
+	for fc := 0; fc < 256; fc++ { // 128..255: a caller (gateway) that copies the raw function byte, error bit included, into the literal
 		for code := 0; code < 256; code++ {
 			e := packet.ErrorResponseRTU{UnitID: uint8(c.Unit), Function: uint8(fc), Code: uint8(code)}
 			fr := e.Bytes()
@@ -484,7 +484,9 @@ func runErrCube(c *Case, r *mon.Rec) {
 				continue
 			}
 			w := specref.CRC(fr[:3])
-			if fr[0] != uint8(c.Unit) || fr[1] != uint8(fc)|0x80 || fr[2] != uint8(code) || fr[3] != byte(w) || fr[4] != byte(w>>8) {
+			// (for Function >= 128 the function byte the encoder chooses is its own business - the pinned code adds 0x80 and
+			// wraps -; this property is about the trailer)
+			if fr[0] != uint8(c.Unit) || (fc < 128 && fr[1] != uint8(fc)|0x80) || fr[2] != uint8(code) || fr[3] != byte(w) || fr[4] != byte(w>>8) {
 				r.Violate(c, "trailer-not-crc", mon.Attrs{"what": "exception"}, fmt.Sprintf("unit %d fc %d code %d -> % x (reference crc %#04x)", c.Unit, fc, code, fr, w))
 			}
 		}
